@@ -17959,13 +17959,24 @@ func (lex *Lexer) Lex() *token.Token {
 		lex.te = (lex.p)
 		(lex.p)--
 		{
-			lex.ungetCnt(1)
-			{
-				lex.growCallStack()
+			if lex.te < len(lex.data) && isValidVarNameStart(lex.data[lex.te]) {
+				lex.ungetCnt(1)
 				{
-					lex.stack[lex.top] = 477
-					lex.top++
-					goto st498
+					lex.growCallStack()
+					{
+						lex.stack[lex.top] = 477
+						lex.top++
+						goto st498
+					}
+				}
+			} else {
+				// a `$` that starts no variable is plain text
+				lex.setTokenPosition(tkn)
+				tok = token.T_ENCAPSED_AND_WHITESPACE
+				lex.cs = 477
+				{
+					(lex.p)++
+					goto _out
 				}
 			}
 		}
